@@ -21,12 +21,12 @@ LEVEL = 'exploration'
 EXHAUSTIVE = True
 RULE = ('finite family of smooth ODEs (autonomous: linear, logistic, oscillator; non-autonomous: cos t, -2ty, the same started where the right-hand side is exactly zero, '
         'y cos t, t^2-y, temperature-ramp forcing, coupled vector) x 3 initial values x {Euler, RK4} x '
-        '{direct iterator call, GenericModel.solve, two models through Coupler.solve}; enumerated completely; a case is non-trivial when its error '
+        '{direct iterator call, GenericModel.solve, two models through Coupler.solve} plus models that return aliased memory (the state array itself, a reused work buffer); enumerated completely; a case is non-trivial when its error '
         'sequence is in the asymptotic regime (errors > 1e3 x rounding and decreasing); distinct by (problem, y0, iterator, path)')
 REQUIRED_MONITORS = ['stage_times', 'input_intact', 'order', 'exact_poly']
 REACH = ['GenericModel.py:Coupler.getdXdt', 'solver/Iterators.py:ExplicitEulerIterator', 'solver/Iterators.py:RK4Iterator',
          'solver/Solver.py:DESolver.solve', 'solver/Solver.py:DESolver._getdXdt', 'solver/Solver.py:DESolver._updateX']
-MIN_NONTRIVIAL = {'quick': 90, 'thorough': 90}
+MIN_NONTRIVIAL = {'quick': 95, 'thorough': 95}
 CASE_TIMEOUT = 300
 ASSUMPTIONS = ['order is a limit statement; it is restated on step-halving sequences h..h/8 of a fixed problem family',
                'closed-form solutions of the family are the reference']
@@ -77,6 +77,8 @@ def _problems():
         return np.array([(np.cos(t) + np.sin(t)) / 2 + c * np.exp(-(t - T0)), y0[1] * np.exp(-(t * t - T0 * T0) / 4)])
     P['vector_nonauto'] = (vec_f, vec_e, False)
     # started at t0 = 0, where the right-hand side vanishes identically (every component)
+    P['exp_vec'] = (lambda t, y: 1.0 * y, lambda t, y0: np.asarray(y0) * np.exp(t - T0), True)
+    P['ycos_vec'] = (lambda t, y: y * np.cos(t), lambda t, y0: np.asarray(y0) * np.exp(np.sin(t) - np.sin(T0)), False)
     P['sin_from_zero'] = (lambda t, y: np.sin(t) + 0 * y, lambda t, y0: y0 + 1 - np.cos(t), False)
     P['gauss_from_zero'] = (lambda t, y: -2 * t * y, lambda t, y0: y0 * np.exp(-t * t), False)
     P['vector_from_zero'] = (lambda t, y: np.array([-2 * t * y[0], t * y[1]]),
@@ -104,6 +106,14 @@ def plan(tier, seed):
                 cases.append({'kind': 'poly', 'degree': deg, 'iterator': it, 'path': path})
             for deg in range(1, 4):     # right-hand side exactly zero at the start of the first step
                 cases.append({'kind': 'poly', 'degree': deg, 'iterator': it, 'path': path, 'zero_start': True})
+    # models that hand the solver aliased memory (state = ONE 1D array): the derivative is the state array itself (y' = y) or a
+    # work buffer that the model refills on every call (y' = y cos t). Legal for a model; the solver must not accumulate into
+    # what it was given (added after seeded change C06-d: flattenX returned the single array without a copy)
+    for alias in ('state', 'buffer'):
+        for y0 in ([1.0, 2.0, -0.5], [0.3, -0.7, 1.1]):
+            for it in ('euler', 'rk4'):
+                cases.append({'kind': 'order', 'problem': 'exp_vec' if alias == 'state' else 'ycos_vec', 'y0': y0, 'iterator': it,
+                              'path': 'solve', 'alias': alias})
     for name in ('sin_from_zero', 'gauss_from_zero', 'vector_from_zero'):
         kind = 'vector' if name.startswith('vector') else 'scalar'
         for y0 in Y0S[kind]:
@@ -161,7 +171,9 @@ def _integrate_solve(case, R, f, y0, t0, tend, nsteps, check_stages=True):
     from kawin.solver.Solver import SolverType
     h = (tend - t0) / nsteps
     vec = np.ndim(y0) > 0
-    log = {'times': [], 'steps': [], 'cur': None}
+    log = {'times': [], 'steps': [], 'cur': None, 'seen': []}
+    alias = case.get('alias')
+    work = np.zeros(np.size(y0)) if alias == 'buffer' else None
 
     class M(GenericModel):
         def __init__(self):
@@ -174,6 +186,13 @@ def _integrate_solve(case, R, f, y0, t0, tend, nsteps, check_stages=True):
 
         def getdXdt(self, t, x):
             log['times'].append(float(t))
+            if alias == 'state':
+                log['seen'].append((x[0], np.array(x[0], copy=True)))
+                return [x[0]]                     # y' = y: the derivative IS the array the solver handed over
+            if alias == 'buffer':
+                log['seen'].append((x[0], np.array(x[0], copy=True)))
+                work[:] = f(t, x[0])              # persistent work buffer, refilled on every call
+                return [work]
             return [np.asarray(f(t, x[0]), dtype=float) if vec else float(f(t, x[0]))]
 
         def getDt(self, dXdt):
@@ -195,6 +214,11 @@ def _integrate_solve(case, R, f, y0, t0, tend, nsteps, check_stages=True):
             ok = len(times) == len(exp) and all(abs(a - b) <= 1e-12 * max(1.0, abs(b)) for a, b in zip(times, exp))
             R.check('stage_times', ok, {'iterator': case['iterator'], 'path': 'solve'},
                     observed=times, expected=exp, t=ta, h=hh)
+    if alias and check_stages:
+        # every state array handed to the model still holds the values it held when it was handed over
+        intact = all(np.array_equal(a, b) for a, b in log['seen'])
+        R.check('input_intact', intact, {'iterator': case['iterator'], 'path': 'solve', 'alias': alias},
+                modified=sum(1 for a, b in log['seen'] if not np.array_equal(a, b)), calls=len(log['seen']))
     R.info['steps_last'] = len(log['steps'])
     return np.atleast_1d(np.array(m.y, dtype=float))
 
